@@ -149,9 +149,18 @@ class World:
             return None  # ordinary null in a nullable position
         if t[0] == "L":
             n = (h >> 3) % 5
-            return [
+            items = [
                 self.gen(t[1], (idseed, i), path + (i,)) for i in range(n)
             ]
+            if n >= 2 and (h >> 11) % 4 == 0:
+                # the very same object listed twice ([alice, bob, alice]):
+                # two response positions, one Python identity
+                j = 1 + (h >> 13) % (n - 1)
+                src = (h >> 17) % j
+                if isinstance(items[src], (Obj, ExcObj, dict)) and \
+                        self.faults.get(path + (j,)) != "null":
+                    items[j] = items[src]
+            return items
         base = t[1]
         spec = self.spec
         if spec.is_composite(base):
